@@ -73,14 +73,21 @@ def main():
     eng.contracts[S + "strip_ok"] = dict(params={"s": "str"}, returns="bool", ensures="result == True", modifies=[], file="selftest")
     eng.contracts[S + "strip_bad"] = dict(params={"s": "str"}, requires="len(s) >= 1", returns="bool", ensures="result == True",
                                           modifies=[], file="selftest")
-    expect = {"strip_ok": True, "strip_bad": False, "global_bad": False, "drop_last": True, "both_tests": True, "bytes_vs_str": True, "default_bad": False, "chain_ok": True, "chain_bad": False, "append_ok": True, "append_bad": False, "count_ok": True, "count_bad": False, "mod_ok": True, "idx_bad": False, "tail_ok": True}
+    # a list the receiver held before the call is not a new list, however it was emptied; round(x, n) is exact
+    eng.classes["Shelf"] = {"class": "pyvc.selftest_samples.Shelf", "fields": {"items": "list[any]"}}
+    for nm in ("Shelf.clear_new", "Shelf.clear_same"):
+        eng.contracts[S + nm] = dict(params={"self": "Shelf"}, returns="None",
+                                     ensures="len(self.items) == 0 and is_fresh(self.items)", modifies=["param:self"], file="selftest")
+    eng.contracts[S + "near_ok"] = dict(params={"a": "real", "b": "real"}, returns="bool",
+                                        ensures="(not (a == b)) or result == True", modifies=[], file="selftest")
+    expect = {"Shelf.clear_new": True, "Shelf.clear_same": False, "near_ok": True, "strip_ok": True, "strip_bad": False, "global_bad": False, "drop_last": True, "both_tests": True, "bytes_vs_str": True, "default_bad": False, "chain_ok": True, "chain_bad": False, "append_ok": True, "append_bad": False, "count_ok": True, "count_bad": False, "mod_ok": True, "idx_bad": False, "tail_ok": True}
     rc = 0
     for name, want in sorted(expect.items()):
         r = eng.verify(S + name)
         allp = all(x["verdict"] == "proved" for x in r["results"]) and not r["undecided"] and r["results"]
         anyref = any(x["verdict"] == "refuted" for x in r["results"])
         ok = allp if want else anyref
-        print("engine regression %-10s expected %-7s -> %s" % (name, "proved" if want else "refuted", "ok" if ok else "WRONG"))
+        print("engine regression %-16s expected %-7s -> %s" % (name, "proved" if want else "refuted", "ok" if ok else "WRONG"))
         if not ok:
             rc = 3
     print("selftest done in %.1fs" % (time.time() - t0))
